@@ -50,13 +50,15 @@ def make_items(ctx, only=None):
     os.makedirs(root, exist_ok=True)
     wls = []
     for i in range(8):
-        wl = K.gen_workload(C.Prng(C.mix_seed(ctx.seed, 8, 7, i)), big=(i == 5), swarm=True)
+        wl = K.gen_workload(C.Prng(C.mix_seed(ctx.seed, 8, 7, i)), big=(i == 5), swarm=True, splitdbg=True)
         if i == 0:      # a removed binary while every matched pair compares clean: the status comes from the removal alone
             wl = {'files': [{'path': 'libtiny.so', 'v1': 'tiny_v0', 'v2': 'tiny_v1'}, {'path': 'libmathx.so', 'v1': 'mathx_v0', 'v2': None},
                             {'path': 'libalias.so', 'v1': 'alias_v1', 'v2': 'alias_v1'}], 'format': 'dir', 'abignore': 'none', 'options': ['--no-default-suppression']}
         if i == 2:      # a pair that ends with an error next to a clean pair and nothing else
             wl = {'files': [{'path': 'libtiny.so', 'v1': 'tiny_v0', 'v2': 'tiny_v1_nodbg'}, {'path': 'libalias.so', 'v1': 'alias_v1', 'v2': 'alias_v1'}],
                   'format': 'dir', 'abignore': 'none', 'options': ['--no-default-suppression', '--fail-no-dbg']}
+        if i in (3, 4):
+            wl['splitdbg'] = True       # binaries without .debug* sections plus debug-info packages (--d1/--d2); w3 is an archive pair
         wl.pop('self_check', None)      # --self-check writes into the package directory, which the runs of this check share
         wl['format'] = 'dir' if i % 3 else 'tar'
         d = os.path.join(root, 'w%d' % i)
